@@ -106,6 +106,7 @@ def decide(pid, prop, tier, seed, results, extra, t0, args):
     lock = load_lock(pid)
     violations, undecided, engine_errors, known_hits = [], [], [], []
     kf_obligations = []
+    informational = []
     discharged, ob_total = 0, 0
     names_ok, names_all = set(), set()
     by_backend = {}
@@ -132,6 +133,12 @@ def decide(pid, prop, tier, seed, results, extra, t0, args):
         recorded failing input class) or, for native findings, one recorded input."""
         for f in known:
             if f.get("contract") and f["contract"] != contract_name:
+                continue
+            if f.get("contracts") and contract_name not in f["contracts"]:
+                continue
+            if f.get("obligations"):
+                if ob_name in f["obligations"]:
+                    return f
                 continue
             if f.get("obligation"):
                 if ob_name != f["obligation"]:
@@ -163,10 +170,14 @@ def decide(pid, prop, tier, seed, results, extra, t0, args):
                     samples.append({"obligation": ob["name"], "verdict": "discharged", "backend": ob["backend"], "s": ob["s"], "assumptions_in_pc": ob["size"], "where": ob["where"]})
                 continue
             # not discharged
+            if ob["kind"] == "info":
+                ob_total -= 1
+                informational.append({"obligation": ob["name"], "note": ob.get("note")})
+                continue
             nat = native_by_contract.get(r["contract"])
             rec = {"contract": r["contract"], "case": r["case"], "obligation": ob["name"], "verdict": ob["verdict"], "closed_path": ob["closed"], "where": ob["where"], "note": ob.get("note"), "model": ob.get("model"), "witness": ob.get("witness"), "replay": ob.get("replay"), "replay_detail": ob.get("replay_detail"), "replay_error": ob.get("replay_error"), "witness_error": ob.get("witness_error")}
             kf = match_known(r["contract"], ob["name"], None)
-            if kf is not None and kf.get("obligation") == ob["name"]:
+            if kf is not None and (kf.get("obligation") == ob["name"] or ob["name"] in kf.get("obligations", [])):
                 known_hits.append((kf, rec))
                 ob_total -= 1  # counted separately: an obligation restricted to a recorded failing input class
                 kf_obligations.append(ob["name"])
@@ -326,6 +337,7 @@ def decide(pid, prop, tier, seed, results, extra, t0, args):
             "undecided": [jsonable(u) for u in undecided][:20],
             "known_findings_reported": sorted({f["id"] for f, _ in known_hits}),
             "known_finding_obligations_not_counted": sorted(set(kf_obligations)),
+            "informational_outside_the_claim": sorted({i["obligation"] + " -- " + str(i["note"]) for i in informational})[:60],
             "known_findings_no_longer_reproducing": stale,
             "explanation": getattr(prop, "EXPLANATION", ""),
             "evaluations": ob_total + sum(s["cases"] for s in standins),
